@@ -39,14 +39,30 @@ def workdir(name):
     return d
 
 
+# The repository under test: /repo, unless a background run works on a snapshot of it
+# (vp run --with-repo exports VP_RUN_REPO), in which case the harness is copied and re-pointed.
+REPO = os.environ.get("VERIF_REPO") or os.environ.get("VP_RUN_REPO") or "/repo"
+
+
 def build_harness():
-    """(Re)build the harness against /repo's current working tree."""
+    """(Re)build the harness against the repository's current working tree."""
+    global BIN
     t0 = time.time()
     env = dict(os.environ, CARGO_NET_OFFLINE="true")
-    lock = os.path.join(HARNESS, "Cargo.lock")
+    hdir = HARNESS
+    if os.path.realpath(REPO) != "/repo":
+        hdir = os.path.join(WORK, "harness-alt")
+        os.makedirs(hdir, exist_ok=True)
+        subprocess.run(["rsync", "-a", "--delete", "--exclude", "target", HARNESS + "/", hdir + "/"], check=True)
+        with open(os.path.join(hdir, "Cargo.toml")) as f:
+            toml = f.read().replace('"/repo/', '"%s/' % os.path.realpath(REPO))
+        with open(os.path.join(hdir, "Cargo.toml"), "w") as f:
+            f.write(toml)
+        BIN = os.path.join(hdir, "target", "release")
+    lock = os.path.join(hdir, "Cargo.lock")
     if not os.path.exists(lock):
-        shutil.copy("/repo/Cargo.lock", lock)
-    p = subprocess.run(["cargo", "build", "--release", "--offline"], cwd=HARNESS, env=env,
+        shutil.copy(os.path.join(REPO, "Cargo.lock"), lock)
+    p = subprocess.run(["cargo", "build", "--release", "--offline"], cwd=hdir, env=env,
                        stdout=subprocess.PIPE, stderr=subprocess.STDOUT, text=True)
     if p.returncode != 0:
         sys.stdout.write(p.stdout[-4000:])
